@@ -12,7 +12,7 @@ ANY = ['two_way_concat', 'one_bit_selects', 'direct_connect_outputs', 'two_way_f
 def post(B, design, passname):
     """Stated postcondition of the LAST pass in the sequence."""
     import pyrtl
-    last = passname.split('+')[-1]
+    last = passname.split('+')[-1].replace('@foreign', '')
     probs = []
     if last == 'nand_synth':
         for n in B.logic:
@@ -81,6 +81,12 @@ def run(ctx):
             tasks.append((ds, p, k, opts))
         for p in ANY:
             tasks.append((d, p, k, opts))
+        # the same passes handed the block through block= while an unrelated block is the working block
+        if d['name'] in ('fanout', 'repeat_args', 'mixed_alu', 'slices', 'concat3', 'mem_rw', 'binop'):
+            for p in ANY:
+                tasks.append((d, p + '@foreign', k, opts))
+            for p in GATE:
+                tasks.append((ds, p + '@foreign', k, opts))
         if d['name'] != 'rand_design' or ctx.tier == 'thorough' or d['params']['seed'] % 4 == 0:
             # orderings of length 2
             for p in ANY:
